@@ -90,6 +90,19 @@ def has_pub_use(items):
     return any((it[0] == "U" and it[1]) or (it[0] == "M" and has_pub_use(it[3])) for it in items)
 
 
+def exported_names(items, pre=()):
+    """mangled names written into the visibility map by `pub use` statements: module path + alias name"""
+    for it in items:
+        if it[0] == "U" and it[1]:
+            if it[3] == "S" and it[2]:
+                yield tuple(pre) + (it[2][-1],)
+            elif isinstance(it[3], (list, tuple)) and it[3][0] == "L":
+                for n in it[3][1]:
+                    yield tuple(pre) + (n,)
+        elif it[0] == "M":
+            yield from exported_names(it[3], tuple(pre) + (it[2],))
+
+
 def all_fn_names(items, pre=()):
     for it in items:
         if it[0] == "F":
@@ -652,6 +665,19 @@ def let_context_explains(pr):
     return bool(same) and is_prefix(target_mod, same[-1])
 
 
+def reexport_overwrites_reached(pr):
+    """F12-cycle: some `pub use` exports the mangled name of the private function that was reached (the negation of the
+    hypothesis `reexportsFresh` of C17_no_private_route, for that function)"""
+    try:
+        k = int(pr["impl"][1])
+    except ValueError:
+        return False
+    hits = [d for d in walk_defs(pr["items"]) if d[3] == k and d[5] == "fn"]
+    if not hits:
+        return False
+    return hits[0][0] + (hits[0][1],) in set(exported_names(pr["items"]))
+
+
 def finding_class(pr):
     """which listed finding class (if any) explains a property failure on which model and implementation agree"""
     if not pr["agree"]:
@@ -662,8 +688,8 @@ def finding_class(pr):
         return "module-let-global"
     if pr["judge"] == "private-fn-route" and let_context_explains(pr):
         return "private-fn-route+let-context"
-    if pr["judge"] == "private-fn-route" and pr["pub_use"]:
-        return "private-fn-route+reexport"
+    if pr["judge"] == "private-fn-route" and reexport_overwrites_reached(pr):
+        return "private-fn-route+reexport-of-declared-name"
     if pr["judge"] == "private-fn-route" and pr["dup_decl"]:
         return "private-fn-route+duplicate-decl"
     return None
